@@ -22,6 +22,7 @@ class Monitor:
         self.allowed_starts: Dict[int, int] = {}
         self.after_fail_ops = 0
         self.facts: set = set()
+        self.signals: List[List[Any]] = []  # [signal, tick delivered, handled?]
 
     def flag(self, key: str, msg: str) -> None:
         self.violations.append((key, msg))
@@ -84,6 +85,14 @@ class Monitor:
             self.flag("C18:budget-exhausted-but-still-running", f"failure budget {env.max_fails} reached ({self.budget}) but start() did not return")
         if self.shutdown_seen:
             self.flag("C18:shutdown-handled-but-still-running", "shutdown action dequeued but start() did not return")
+        for sg in self.signals:
+            if not sg[2] and sg[1] <= env.tick_no - 1 and not self.must_fail and not self.shutdown_seen:
+                kind = "shutdown" if sg[0] in ("INT", "TERM") else "reload"
+                self.flag(
+                    f"C18:{kind}-signal-lost",
+                    f"{sg[0]} delivered in tick {sg[1]} has not been handled by the end of tick {env.tick_no} (manager still running)",
+                )
+                sg[2] = True
         self.starts_this_tick = {}
         self.allowed_starts = {}
         self.reload_all_this_tick = False
@@ -112,7 +121,15 @@ class Monitor:
         elif name == "ReloadAllAction":
             self.reload_all_this_tick = True
             self.facts.add("reload-all")
+            for sg in self.signals:
+                if sg[0] in ("HUP", "FILE") and not sg[2]:
+                    sg[2] = True
+                    break
         elif name == "ShutdownAction":
+            for sg in self.signals:
+                if sg[0] in ("INT", "TERM") and not sg[2]:
+                    sg[2] = True
+                    break
             self.shutdown_seen = True
             self.facts.add("shutdown")
             self.expected_kills = [p for p in env.manager.workers if p.state in ("alive", "terminating")]
@@ -140,7 +157,8 @@ class Monitor:
             self.flag("C18:worker-signalled-twice", f"pid {pid} signalled {self.kills[pid]} times")
 
     def on_signal(self, sig: str) -> None:
-        pass
+        # a delivered signal is a request: shutdown / reload-all must be handled by the end of the next tick
+        self.signals.append([sig, self.env.tick_no, False])
 
     def on_return(self, rv: Any) -> None:
         env = self.env
@@ -172,4 +190,5 @@ class Monitor:
             self.budget,
             self.must_fail,
             self.shutdown_seen,
+            tuple((sg[0], t - sg[1]) for sg in self.signals if not sg[2]),
         )
